@@ -258,6 +258,118 @@ def pulser_meta(rep: Report, rng, count: int) -> None:
     rep.extra["pulser_meta_max_U_rel_diff"] = max(worst_u, rep.extra.get("pulser_meta_max_U_rel_diff", 0.0))
 
 
+
+def pulser_ids(rep: Report, rng, count: int, replay_cases=None) -> None:
+    """per-atom drives (DMM detuning map with distinct weights + a local channel) on registers whose id order differs from the
+    sorted order — 11-12 atoms with int / mixed-length string ids, and small ones ('b','a','c' / 10, 9, 2): the drive columns
+    of the SequenceData must be the per-atom samples *in register order*, and original, abstract-repr round trip (int ids become
+    strings: '10' < '2') and relabelled registers must give the same per-atom occupations"""
+    np, torch, tio, compat = _imports()
+    import logging
+    import warnings
+    import harness.pytest_compat  # noqa: F401
+    import pulser
+    import pulser.backend as pb
+    from pulser.devices import MockDevice
+    from pulser.sampler import sample
+    from emu_base.pulser_adapter import PulserData
+    from emu_sv import SVConfig
+
+    def build(ids, coords, weights, local_target, pulses, dmm_det):
+        reg = pulser.Register(dict(zip(ids, coords)))
+        seq = pulser.Sequence(reg, MockDevice)
+        seq.declare_channel("ch", "rydberg_global")
+        seq.declare_channel("loc", "rydberg_local", initial_target=ids[local_target])
+        seq.config_detuning_map(reg.define_detuning_map(dict(zip(ids, weights))), "dmm_0")
+        for dur, amp, det, ph in pulses:
+            seq.add(pulser.Pulse.ConstantPulse(dur, amp, det, ph), "ch")
+        seq.add_dmm_detuning(pulser.ConstantWaveform(sum(p[0] for p in pulses), dmm_det), "dmm_0")
+        seq.add(pulser.Pulse.ConstantPulse(pulses[0][0], 3.0, -4.0, 0.0), "loc", protocol="no-delay")
+        return seq
+
+    def evaluate(seq, dt):
+        with warnings.catch_warnings():
+            warnings.simplefilter("ignore")
+            cfg = SVConfig(gpu=False, log_level=logging.ERROR, dt=dt, observables=[pb.Occupation(evaluation_times=[1.0])],
+                           krylov_tolerance=1e-12)
+            pdat = PulserData(sequence=seq, config=cfg, dt=dt)
+            data = list(pdat.get_sequences())[0]
+            r = compat.run_sv(data, cfg)
+            loc = sample(seq).to_nested_dict(all_local=True, samples_type="tensor")["Local"]["ground-rydberg"]
+        occ = np.asarray(torch.as_tensor(r.get_result("occupation", 1.0)).tolist())
+        # drive columns vs the per-atom samples, in register order (interior steps of constant pulses: exact)
+        tt = data.target_times
+        worst = 0.0
+        for k, qid in enumerate(seq.register.qubit_ids):
+            for name, col in (("amp", data.omega), ("det", data.delta)):
+                sig = torch.as_tensor(loc[qid][name]).real
+                for st in range(len(tt) - 2):
+                    tm = 0.5 * (tt[st] + tt[st + 1])
+                    lo, hi = float(sig[int(math.floor(tm))]), float(sig[min(int(math.ceil(tm)), len(sig) - 1)])
+                    if lo == hi:                                   # away from the pulse boundaries
+                        worst = max(worst, abs(float(col[st, k].real) - lo))
+        return occ, worst, [str(a) for a in r.atom_order], [str(q) for q in data.qubit_ids]
+
+    worst_occ, worst_col = 0.0, 0.0
+    for i in range(len(replay_cases) if replay_cases is not None else count):
+        if replay_cases is not None:
+            rc = replay_cases[i]
+            ids = [int(x) if t == "int" else x for x, t in zip(rc["ids"], rc["id_types"])]
+            n, coords, weights, pulses = len(ids), [tuple(c) for c in rc["coords"]], rc["weights"], [tuple(p_) for p_ in rc["pulses"]]
+            dmm_det, target, dt, relabel = rc["dmm_det"], rc["local_target"], rc["dt"], rc["relabel"]
+        else:
+            big = i == 0
+            if big:
+                n = rng.choice([11, 12])
+                ids = rng.choice([list(range(n)), [str(k) for k in range(n)], ["a", "bb", "10", "2", "c1", "1", "zz", "b", "9", "A", "11", "q"][:n]])
+                ids = ids[:]
+                rng.shuffle(ids)
+            else:
+                ids = rng.choice([["b", "a", "c"], [10, 9, 2], ["q10", "q9", "q2", "q1"], [2, 10, 1]])[:]
+                n = len(ids)
+            cols = 4
+            coords = [(6.5 * (k % cols) + rng.uniform(-0.5, 0.5), 6.5 * (k // cols) + rng.uniform(-0.5, 0.5)) for k in range(n)]
+            raw = [rng.uniform(0.2, 1.0) for _ in range(n)]
+            weights = [x / sum(raw) for x in raw]
+            pulses = [(rng.choice([60, 100]), rng.uniform(3, 8), rng.uniform(-5, 5), rng.uniform(0, 3)) for _ in range(rng.randint(1, 2))]
+            dmm_det = -rng.uniform(20, 60)
+            target = rng.randrange(n)
+            dt = 20 if big else 10
+            relabel = [f"r{(7 * k + 3) % 13:02d}x"[: rng.choice([3, 4])] + str(k) for k in range(n)]      # new names, another sort order
+        data = dict(kind="pulser-ids", ids=[str(x) for x in ids], id_types=[type(x).__name__ for x in ids], coords=coords, weights=weights,
+                    pulses=pulses, dmm_det=dmm_det, local_target=target, dt=dt, relabel=relabel)
+        rep.case(key=("pulser-ids", i), nontrivial=True, trace=False)
+        rep.hist("pulser_ids_n", n)
+        try:
+            with warnings.catch_warnings():
+                warnings.simplefilter("ignore")
+                seq = build(ids, coords, weights, target, pulses, dmm_det)
+                variants = {"original": seq,
+                            "abstract-repr round trip": pulser.Sequence.from_abstract_repr(seq.to_abstract_repr()),
+                            "relabelled register": build(relabel, coords, weights, target, pulses, dmm_det)}
+            base = None
+            for name, sq in variants.items():
+                occ, col_err, ao, qids = evaluate(sq, dt)
+                worst_col = max(worst_col, col_err)
+                if ao != [str(q) for q in sq.register.qubit_ids] or qids != ao:
+                    rep.fail(f"{name}: atom order {ao} / SequenceData ids {qids} are not the register order", dict(data, variant=name))
+                if col_err > 1e-9:
+                    rep.fail(f"{name} ({n} atoms, ids {list(sq.register.qubit_ids)[:6]}...): a drive column of the SequenceData differs from the "
+                             f"samples of the atom at that register position by {col_err:.3e} (per-atom drives landed on other atoms)",
+                             dict(data, variant=name))
+                if base is None:
+                    base = occ
+                else:
+                    d = float(np.abs(occ - base).max())
+                    worst_occ = max(worst_occ, d)
+                    if d > 1e-7:
+                        rep.fail(f"{name}: per-atom occupations differ from the original sequence by {d:.3e}", dict(data, variant=name))
+        except Exception as e:
+            rep.fail(f"pulser per-atom-drive path raised {type(e).__name__}: {e}", data, klass=None)
+    rep.extra["pulser_ids_max_occ_diff"] = max(worst_occ, rep.extra.get("pulser_ids_max_occ_diff", 0.0))
+    rep.extra["pulser_ids_max_column_err"] = max(worst_col, rep.extra.get("pulser_ids_max_column_err", 0.0))
+
+
 # ------------------------------------------------------------------ check
 def check(rep: Report, tier: str, seed: int) -> None:
     import time
@@ -266,7 +378,9 @@ def check(rep: Report, tier: str, seed: int) -> None:
     rep.rule = ("one PRNG; Hamiltonian level: gaussian vectors, n=1..8, random real drives, phases and offsets; end to end: "
                 "hand-built SequenceData, 1-6 atoms (emu-sv) / 2-5 (emu-mps, precision 1e-8, no reordering), 2-6 steps of 10/20 ns, "
                 "per-atom or global time-dependent phases, amplitudes incl. zeros, offsets in (-3,3); real pulser Registers of 2-5 "
-                "atoms (min distance 5 um), 1-3 constant pulses, random rotation/translation/reflection, abstract-repr round trip")
+                "atoms (min distance 5 um), 1-3 constant pulses, random rotation/translation/reflection, abstract-repr round trip; per-atom drives "
+                "(DMM detuning map with distinct weights + a local channel) on one 11-12 atom register with shuffled int / string / "
+                "mixed-length ids and two small registers with non-sorted ids: original vs round trip vs relabelled, drive columns vs samples")
     rep.assumptions = [
         "the ideal matrix exponential is not modelled: theorems are for every polynomial in H (what a truncated Taylor/Krylov step is)",
         "register isometries and (de)serialisation are Pulser's computation: metamorphic tests only",
@@ -280,6 +394,7 @@ def check(rep: Report, tier: str, seed: int) -> None:
     ham_level(rep, seeded(seed * 7919 + 29), 60 if quick else 1000)
     e2e(rep, seeded(seed * 104729 + 29), 9 if quick else 150, True)
     pulser_meta(rep, seeded(seed * 1299709 + 29), 3 if quick else 40)
+    pulser_ids(rep, seeded(seed * 15485863 + 29), 3 if quick else 30)
     rep.extra["t_total_s"] = round(time.time() - t0, 1)
     if rep.broken and not rep.failing:
         search(rep, seed, 30 if quick else 300)
@@ -325,6 +440,14 @@ def replay(rep: Report, path: str) -> int:
             e = max(float(((Hs * v) - V * (H * (V.conj() * v))).abs().max()), float(((Hn * v) - (H * v.conj()).conj()).abs().max())) / sc
             print(f"replay: Hamiltonian identities n={n}: {e:.3e}", "FAILS" if e > TOL_H else "holds now")
             bad += e > TOL_H
+        elif k == "pulser-ids":
+            r2 = Report(rep.prop, "quick", 0)
+            pulser_ids(r2, None, 0, replay_cases=[d])
+            for x in r2.failing[:3]:
+                print("replay:", x["what"][:200], "FAILS")
+            if not r2.failing:
+                print("replay: per-atom drives / occupations agree in register order: holds now")
+            bad += bool(r2.failing)
         else:
             print("replay: no stored input for", f["what"][:100])
     return 1 if bad else 0
